@@ -653,6 +653,14 @@ Proof.
   eapply Permutation_trans; [apply Permutation_sym, Permutation_rev|exact Hp].
 Qed.
 
+(* the exported file is a function of the table being exported, and of its longest-chain rows only:
+   no other state enters (earlier exports, what is left in the temporary directory, stale/orphan rows).
+   Trivial for the model by its type; the harness observes it on the implementation (xe operations). *)
+Theorem export_store_only : forall t1 t2 : table,
+  filter (fun p => N.eqb (snd p) st_longest) t1 = filter (fun p => N.eqb (snd p) st_longest) t2 ->
+  export_db t1 = export_db t2.
+Proof. intros t1 t2 H. unfold export_db, longest_of. now rewrite H. Qed.
+
 (* ------------------------------------------------------------------------------------------ *)
 (* start-up                                                                                    *)
 
